@@ -153,6 +153,27 @@ def bankPart (fl : List Prim) : List Prim :=
     | .burn (.erc _) .. => false
     | _ => true)
 
+/-- the money-moving functions a composite function calls (regenerated in source order: `Gen.C04.*_calls`) -/
+inductive FCall where
+  | depositBridgeToken | withdrawBridgeToken | conversionCoin | bridgeTokenToBaseCoin | baseCoinToBridgeToken
+  | ibcCoinToBaseCoin | baseCoinToIBCCoin | ibcTransfer | convertCoin | baseCoinToEvm | transferIBCHandler | ibcRefund
+  | addUnbatchedTx
+  deriving DecidableEq, Repr
+
+/-- flow of one call inside `BridgeTokenToBaseCoin` (`toBase = true`) / `BaseCoinToBridgeToken` (`toBase = false`) -/
+def FCall.bridgeFlow (k : Kind) (g c : Nat) (h : Addr) (n : Nat) (toBase : Bool) : FCall → Option (List Prim)
+  | .depositBridgeToken => some (FxVerif.Model.Flows.depositBridgeToken k g c h n)
+  | .withdrawBridgeToken => some (FxVerif.Model.Flows.withdrawBridgeToken k g c h n)
+  | .conversionCoin => some (FxVerif.Model.Flows.conversionCoin k g c h n toBase)
+  | _ => none
+
+def composeFlow (f : FCall → Option (List Prim)) : List FCall → Option (List Prim)
+  | [] => some []
+  | x :: r =>
+    match f x, composeFlow f r with
+    | some a, some b => some (a ++ b)
+    | _, _ => none
+
 /-! ### IBC alias flows (`x/crosschain/keeper/many_to_one.go`) -/
 
 /-- `IBCCoinToBaseCoin`: the voucher is parked in the transfer module account, the base coin minted there and paid out -/
